@@ -53,6 +53,26 @@ package ledger
 // thorough: all) must satisfy the oracle (labels: only "equal to the reference label of that
 // round", since a failed first-stage record legitimately loses that catchpoint).
 //
+// BLOCK-HISTORY DIMENSION.  Three more runs use config "nocp-hist2" (MaxBlockHistoryLookback 2,
+// catchpoints off) with the held-back flush schedules (end, alt), i.e. the tracker DB lags the
+// block DB by more than the configured lookback while the syncer's forget transaction runs:
+// the block DB may still only forget what the trackers no longer need.
+//
+// STOP WHILE A FLUSH IS STALLED.  Three runs (inside a testing/synctest bubble, which gives
+// the barrier "everything that can move has moved") hold the syncer's block-DB transaction
+// of block r at db.atomic.enter, start a goroutine blocked in WaitForCommit(r), and call
+// the real Ledger.Close() (2 runs) / reloadLedger() (1 run). A crash image is taken at that
+// moment (point "stop") and at every later commit point; "confirmed" = WaitForCommit(r) has
+// RETURNED (it has no error result). On the clean tree the caller stays blocked: stop() waits
+// for the syncer, the syncer finishes the put it has taken, and only then WaitForCommit
+// returns. (A block still only in the in-memory queue when stop() runs is dropped and its
+// waiter never returns — not enumerated.)
+//
+// SEEDED CHANGES verified (git apply; exit 1; checkout; exit 0): seeded/C09-A (waitCommit also
+// returns when the queue is stopped) is caught by the stop runs (C09:confirmed-block-lost at
+// the "stop" image and the following commit.pre); seeded/C09-B (MaxBlockHistoryLookback
+// overrides minToSave) is caught by the nocp-hist2 runs (C09:reopen-failed).
+//
 // NOT COVERED: torn pages / partial fsync inside SQLite (a snapshot is the file content at
 // a transaction boundary of the process; SQLite's own WAL recovery is exercised for real);
 // statements the catchpoint tracker executes outside AtomicContext (autocommit
@@ -96,6 +116,7 @@ import (
 	"sync"
 	"sync/atomic"
 	"testing"
+	"testing/synctest"
 	"time"
 
 	"github.com/algorand/go-deadlock"
@@ -200,6 +221,7 @@ func c09TrackerWriteHandle(l *Ledger) (h *sql.DB) {
 type c09Cfg struct {
 	Name        string
 	Catchpoints bool
+	BlockHist   uint64 // config.Local.MaxBlockHistoryLookback (0 = default)
 }
 
 func c09LocalConfig(cfg c09Cfg, fastSync bool, noCache bool) config.Local {
@@ -217,6 +239,7 @@ func c09LocalConfig(cfg c09Cfg, fastSync bool, noCache bool) config.Local {
 	} else {
 		lc.CatchpointTracking = config.CatchpointTrackingModeUntracked
 	}
+	lc.MaxBlockHistoryLookback = cfg.BlockHist
 	// the LRU caches pre-allocate ~100 MB per Ledger object
 	lc.DisableLedgerLRUCache = noCache
 	if fastSync {
@@ -280,12 +303,17 @@ type c09RunSpec struct {
 	Policy   string // blockFirst | trackerFirst
 	FaultDB  string // "", block, tracker
 	FaultOcc int
+	StopKind string       // "", close, reload: Ledger.Close / reloadLedger while the put of block StopAt is held
+	StopAt   basics.Round // the block whose block-DB transaction is held back
 }
 
 func (s c09RunSpec) String() string {
 	f := ""
 	if s.FaultDB != "" {
 		f = fmt.Sprintf("/fault:%s#%d", s.FaultDB, s.FaultOcc)
+	}
+	if s.StopKind != "" {
+		f += fmt.Sprintf("/stop:%s@%d", s.StopKind, s.StopAt)
 	}
 	return s.Cfg.Name + "/" + s.Sched + "/" + s.Policy + f
 }
@@ -325,6 +353,19 @@ type c09Rec struct {
 	blockTxOK   bool
 	waitRet     basics.Round
 	herr        error
+	holdPut     bool          // park the next block-put transaction at db.atomic.enter
+	holdCh      chan struct{} // the parked transaction waits on this
+}
+
+func (rc *c09Rec) releaseHold() bool {
+	rc.mu.Lock()
+	defer rc.mu.Unlock()
+	if rc.holdCh == nil {
+		return false
+	}
+	close(rc.holdCh)
+	rc.holdCh = nil
+	return true
 }
 
 func (rc *c09Rec) fail(err error) {
@@ -409,6 +450,24 @@ func (rc *c09Rec) snap(kind, phase, cerr string) (occ int, injectNow bool) {
 	return occ, injectNow
 }
 
+// snapStop records the crash image "the process dies now" outside a commit hook.
+func (rc *c09Rec) snapStop() int {
+	rc.mu.Lock()
+	k := len(rc.points)
+	p := c09Point{K: k, DB: "block", Phase: "stop", Occ: rc.preCount["block"], WaitRet: rc.waitRet}
+	rc.mu.Unlock()
+	p.Confirmed, _ = rc.l.LatestCommitted()
+	p.Added = rc.l.Latest()
+	p.Dir = filepath.Join(rc.snapRoot, fmt.Sprintf("%04d", k))
+	if err := c09CopyTree(rc.runDir, p.Dir); err != nil {
+		rc.fail(fmt.Errorf("snapshot %d: %v", k, err))
+	}
+	rc.mu.Lock()
+	rc.points = append(rc.points, p)
+	rc.mu.Unlock()
+	return k
+}
+
 func (rc *c09Rec) handle(name string, args ...any) error {
 	if len(args) < 2 {
 		return nil
@@ -424,6 +483,19 @@ func (rc *c09Rec) handle(name string, args ...any) error {
 	}
 	switch name {
 	case "db.atomic.enter":
+		if kind == "block" {
+			rc.mu.Lock()
+			var ch chan struct{}
+			if rc.holdPut && !rc.phaseForget {
+				rc.holdPut = false
+				ch = make(chan struct{})
+				rc.holdCh = ch
+			}
+			rc.mu.Unlock()
+			if ch != nil {
+				<-ch // stop scenario: the block flush stalls here until the harness releases it
+			}
+		}
 		rc.gate(kind)
 		rc.wmu.Lock()
 		if kind == "block" {
@@ -500,6 +572,7 @@ type c09RunResult struct {
 	FinalLabel  string
 	FinalDB     basics.Round
 	InjectedAt  int // K of the injected pre point, -1 if none
+	StopK       int // K of the crash image taken while Close/reloadLedger waits, -1 if none
 	LiveQueries int64
 }
 
@@ -528,7 +601,19 @@ func c09FlushAllowed(sched string, r basics.Round) bool {
 
 // c09Run executes the history on a fresh file-backed ledger under the recorder. A returned
 // error is a harness failure; a *c09Fail is a property violation seen on the live ledger.
-func c09Run(h *c09History, spec c09RunSpec, root string) (res *c09RunResult, err error) {
+func c09Run(t *testing.T, h *c09History, spec c09RunSpec, root string) (res *c09RunResult, err error) {
+	if spec.StopKind == "" {
+		return c09RunBody(h, spec, root)
+	}
+	// the stop scenario needs a quiescence barrier ("is the WaitForCommit caller still
+	// blocked?"): it runs inside a testing/synctest bubble
+	synctest.Test(t, func(*testing.T) {
+		res, err = c09RunBody(h, spec, root)
+	})
+	return res, err
+}
+
+func c09RunBody(h *c09History, spec c09RunSpec, root string) (res *c09RunResult, err error) {
 	w := h.w
 	runDir := filepath.Join(root, "live")
 	if err := os.MkdirAll(runDir, 0o755); err != nil {
@@ -560,7 +645,7 @@ func c09Run(h *c09History, spec c09RunSpec, root string) (res *c09RunResult, err
 	rc.recording = true
 	rc.mu.Unlock()
 
-	res = &c09RunResult{Spec: spec, Root: root, Labels: map[basics.Round]string{}, InjectedAt: -1}
+	res = &c09RunResult{Spec: spec, Root: root, Labels: map[basics.Round]string{}, InjectedAt: -1, StopK: -1}
 	observeLabel := func() error {
 		lab := l.GetLastCatchpointLabel()
 		if lab == "" {
@@ -593,8 +678,68 @@ func c09Run(h *c09History, spec c09RunSpec, root string) (res *c09RunResult, err
 		rc.mu.Lock()
 		it0 := rc.syncIters
 		rc.mu.Unlock()
+		stopHere := spec.StopKind != "" && r == spec.StopAt
+		if stopHere {
+			rc.mu.Lock()
+			rc.holdPut = true
+			rc.mu.Unlock()
+		}
 		if err := l.AddValidatedBlock(*vb, agreement.Certificate{}); err != nil {
 			return nil, c09Failf("C09:live-addblock", "run %s: AddValidatedBlock(%d): %v", spec, r, err)
+		}
+		if stopHere {
+			// the syncer has taken block r and stalls before its block-DB transaction; a caller
+			// waits for the durability confirmation; the node is shut down (or reloads)
+			synctest.Wait()
+			rc.mu.Lock()
+			held := rc.holdCh != nil
+			rc.mu.Unlock()
+			if !held {
+				return nil, fmt.Errorf("run %s: the put of block %d did not reach the hold gate", spec, r)
+			}
+			waiterDone, closerDone := make(chan struct{}), make(chan struct{})
+			go func() {
+				defer close(waiterDone)
+				l.WaitForCommit(r)
+				rc.mu.Lock()
+				if rc.waitRet < r {
+					rc.waitRet = r
+				}
+				rc.mu.Unlock()
+			}()
+			var reloadErr error
+			go func() {
+				defer close(closerDone)
+				if spec.StopKind == "close" {
+					l.Close()
+				} else {
+					reloadErr = l.reloadLedger()
+				}
+			}()
+			synctest.Wait() // everything that can move without the flush has moved
+			res.StopK = rc.snapStop()
+			rc.releaseHold()
+			// (blocking receives, not synctest.Wait: the hook handler's polling gates sleep on the
+			// bubble's clock, which only advances while this goroutine is blocked too)
+			<-closerDone
+			<-waiterDone
+			if spec.StopKind == "close" {
+				closed = true
+				rc.mu.Lock()
+				rc.recording = false
+				herr := rc.herr
+				res.Points = append([]c09Point{}, rc.points...)
+				rc.mu.Unlock()
+				return res, herr
+			}
+			if reloadErr != nil {
+				return nil, c09Failf("C09:live-reload", "run %s: reloadLedger with block %d in flight failed: %v", spec, r, reloadErr)
+			}
+			if err := rc.waitSyncIters(it0 + 1); err != nil {
+				return nil, err
+			}
+			l.trackers.waitAccountsWriting()
+			continue
 		}
 		l.WaitForCommit(r)
 		rc.mu.Lock()
@@ -1021,6 +1166,9 @@ func c09Verify(h *c09History, spec c09RunSpec, p c09Point, refs *c09Refs, st *c0
 	if spec.FaultDB != "" {
 		class = "fault:" + spec.FaultDB + "|" + class
 	}
+	if spec.StopKind != "" {
+		class = "stop:" + spec.StopKind + "|" + class
+	}
 	conf := p.Confirmed
 	if p.WaitRet > conf {
 		conf = p.WaitRet
@@ -1159,6 +1307,7 @@ func TestVerif_C09(t *testing.T) {
 
 	cfgCP := c09Cfg{Name: "cp", Catchpoints: true}
 	cfgNo := c09Cfg{Name: "nocp", Catchpoints: false}
+	cfgHist := c09Cfg{Name: "nocp-hist2", Catchpoints: false, BlockHist: 2}
 	base := []c09RunSpec{
 		{Cfg: cfgCP, Sched: "every", Policy: "blockFirst"},
 		{Cfg: cfgCP, Sched: "every", Policy: "trackerFirst"},
@@ -1170,6 +1319,15 @@ func TestVerif_C09(t *testing.T) {
 		{Cfg: cfgNo, Sched: "alt", Policy: "trackerFirst"},
 		{Cfg: cfgNo, Sched: "end", Policy: "blockFirst"},
 		{Cfg: cfgNo, Sched: "end", Policy: "trackerFirst"},
+		// small MaxBlockHistoryLookback: block pruning is configured tighter than the tracker lag
+		{Cfg: cfgHist, Sched: "end", Policy: "blockFirst"},
+		{Cfg: cfgHist, Sched: "end", Policy: "trackerFirst"},
+		{Cfg: cfgHist, Sched: "alt", Policy: "blockFirst"},
+	}
+	stops := []c09RunSpec{
+		{Cfg: cfgNo, Sched: "every", Policy: "blockFirst", StopKind: "close", StopAt: 5},
+		{Cfg: cfgNo, Sched: "every", Policy: "trackerFirst", StopKind: "reload", StopAt: 5},
+		{Cfg: cfgNo, Sched: "alt", Policy: "blockFirst", StopKind: "close", StopAt: 8},
 	}
 	faultBases := ve.Pick(1, len(base)) // quick: faults on the first run only
 	faultWindow := ve.Pick(16, 0)       // quick: crash points checked after the failed commit (0 = all)
@@ -1191,7 +1349,7 @@ func TestVerif_C09(t *testing.T) {
 		root := filepath.Join(scratch, fmt.Sprintf("run%03d", seq))
 		defer os.RemoveAll(root)
 		t0 := time.Now()
-		res, err := c09Run(h, spec, root)
+		res, err := c09Run(t, h, spec, root)
 		tRun := time.Since(t0)
 		if err != nil {
 			var f *c09Fail
@@ -1234,6 +1392,9 @@ func TestVerif_C09(t *testing.T) {
 			}
 			if spec.FaultDB != "" && p.K < res.InjectedAt {
 				continue // identical to the prefix of the run without the fault
+			}
+			if spec.StopKind != "" && p.K < res.StopK {
+				continue // identical to the prefix of the run without the stop
 			}
 			if spec.FaultDB != "" && faultWindow > 0 && p.K >= res.InjectedAt+faultWindow {
 				continue // quick tier: the window in which the failed commit is retried and absorbed
@@ -1314,6 +1475,16 @@ func TestVerif_C09(t *testing.T) {
 			break
 		}
 	}
+	var stopRuns int64
+	for _, spec := range stops {
+		if run.Violations() > 0 {
+			break
+		}
+		if _, stop := doRun(spec, -1); stop {
+			break
+		}
+		stopRuns++
+	}
 faults:
 	for bi := 0; bi < faultBases && run.Violations() == 0; bi++ {
 		if baseRes[bi] == nil {
@@ -1340,6 +1511,7 @@ faults:
 
 	run.Set("runs", runs)
 	run.Set("fault_injection_runs", faultRuns)
+	run.Set("stop_while_flush_stalled_runs", stopRuns)
 	run.Set("crash_points_recorded", crashPoints)
 	run.Set("snapshots_reopened", reopened)
 	run.Set("lookups_compared", stats.queries)
